@@ -1,1 +1,2 @@
+pub mod delta;
 pub mod lex;
